@@ -14,6 +14,7 @@ use std::task::Waker;
 use std::time::Duration;
 
 pub mod clock;
+pub mod resolv;
 pub mod tcp;
 pub mod udp;
 
